@@ -297,6 +297,109 @@ fn short(a: &AuthenticatorData) -> String {
     format!("flags={:?} counter={:?} attested={} ext={:?}", a.flags, a.counter, a.attested_credential_data.as_ref().map_or("none".into(), |x| format!("id[{}]", x.credential_id().len())), a.extensions)
 }
 
+// ------------------------------------------------------------------------------------------
+// setter sequences: every order of up to 3 (4) setter calls after the constructor
+
+#[derive(Clone, Copy, Debug, Serialize, Deserialize, PartialEq, Eq, Hash)]
+pub enum Setter {
+    FlagsUp,
+    FlagsUvBe,
+    Attested16,
+    Attested0,
+    MakeExtNone,
+    MakeExtEmpty,
+    MakeExtHmac,
+    MakeExtMc,
+    AssertExtNone,
+    AssertExtEmpty,
+    AssertExtBytes,
+}
+pub const SETTERS: [Setter; 11] = [Setter::FlagsUp, Setter::FlagsUvBe, Setter::Attested16, Setter::Attested0, Setter::MakeExtNone, Setter::MakeExtEmpty, Setter::MakeExtHmac, Setter::MakeExtMc, Setter::AssertExtNone, Setter::AssertExtEmpty, Setter::AssertExtBytes];
+
+fn apply_setter(ad: AuthenticatorData, s: Setter) -> Result<AuthenticatorData, String> {
+    let acd = |l: usize| {
+        let (x, y) = xy();
+        let key = coset::CoseKeyBuilder::new_ec2_pub_key(iana::EllipticCurve::P_256, x, y).algorithm(iana::Algorithm::ES256).build();
+        AttestedCredentialData::new(Aaguid::from([9; 16]), vec![7; l], key).unwrap()
+    };
+    let e = |r: Result<AuthenticatorData, passkey_types::ctap2::Ctap2Error>| r.map_err(|e| format!("{e:?}"));
+    match s {
+        Setter::FlagsUp => Ok(ad.set_flags(Flags::UP)),
+        Setter::FlagsUvBe => Ok(ad.set_flags(Flags::UV | Flags::BE)),
+        Setter::Attested16 => Ok(ad.set_attested_credential_data(acd(16))),
+        Setter::Attested0 => Ok(ad.set_attested_credential_data(acd(0))),
+        Setter::MakeExtNone => e(ad.set_make_credential_extensions(None)),
+        Setter::MakeExtEmpty => e(ad.set_make_credential_extensions(Some(make_credential::SignedExtensionOutputs { hmac_secret: None, hmac_secret_mc: None }))),
+        Setter::MakeExtHmac => e(ad.set_make_credential_extensions(Some(make_credential::SignedExtensionOutputs { hmac_secret: Some(true), hmac_secret_mc: None }))),
+        Setter::MakeExtMc => e(ad.set_make_credential_extensions(Some(make_credential::SignedExtensionOutputs { hmac_secret: None, hmac_secret_mc: Some(vec![1; 48].into()) }))),
+        Setter::AssertExtNone => e(ad.set_assertion_extensions(None)),
+        Setter::AssertExtEmpty => e(ad.set_assertion_extensions(Some(get_assertion::SignedExtensionOutputs { hmac_secret: None }))),
+        Setter::AssertExtBytes => e(ad.set_assertion_extensions(Some(get_assertion::SignedExtensionOutputs { hmac_secret: Some(vec![2; 32].into()) }))),
+    }
+}
+
+pub fn eval_setters(seq: &[Setter]) -> Vec<Finding> {
+    let case = json!({"setters": seq});
+    let mut fs = vec![];
+    let built = par::catch(|| {
+        let mut ad = AuthenticatorData::new("example.com", Some(3));
+        for s in seq {
+            ad = apply_setter(ad, *s)?;
+        }
+        let attested = ad.attested_credential_data.is_some();
+        let ext = ad.extensions.is_some();
+        Ok::<_, String>((ad.to_vec(), attested, ext, format!("{ad:?}")))
+    });
+    let (bytes, attested, ext, dbg) = match built {
+        Err(p) => return vec![Finding::new("setters/kind=panic", p, case)],
+        Ok(Err(e)) => return vec![Finding::new("setters/kind=setter-fails", e, case)],
+        Ok(Ok(x)) => x,
+    };
+    let mut bad = |kind: &str, d: String| fs.push(Finding::new(format!("setters/kind={kind}"), d, case.clone()));
+    match rp::parse_auth_data(&bytes) {
+        Err(e) => bad("encoding-does-not-follow-layout", format!("{e} (value: {dbg})")),
+        Ok(p) => {
+            if (p.flags & rp::AT != 0) != attested || p.attested.is_some() != attested {
+                bad("at-flag-vs-section", format!("AT flag {} but attested credential data present = {attested}", p.flags & rp::AT != 0));
+            }
+            if (p.flags & rp::ED != 0) != ext || p.extensions.is_some() != ext {
+                bad("ed-flag-vs-section", format!("ED flag {} but extension data present = {ext}", p.flags & rp::ED != 0));
+            }
+            if p.trailing != 0 {
+                bad("trailing-bytes", format!("{}", p.trailing));
+            }
+        }
+    }
+    match decode(&bytes) {
+        Err(p) => bad("panic-in-from-slice", p),
+        Ok(None) => bad("own-encoding-rejected", format!("from_slice rejects what to_vec produced for {dbg}")),
+        Ok(Some(back)) => {
+            if format!("{back:?}") != dbg {
+                bad("round-trip-differs", format!("{back:?} vs {dbg}"));
+            }
+        }
+    }
+    fs
+}
+
+fn setter_sequences(depth: usize) -> Vec<Vec<Setter>> {
+    let mut all: Vec<Vec<Setter>> = vec![vec![]];
+    let mut level: Vec<Vec<Setter>> = vec![vec![]];
+    for _ in 0..depth {
+        let mut next = vec![];
+        for s in &level {
+            for a in SETTERS {
+                let mut n = s.clone();
+                n.push(a);
+                next.push(n);
+            }
+        }
+        all.extend(next.iter().cloned());
+        level = next;
+    }
+    all
+}
+
 pub fn run(ctx: &Ctx) -> Result<Run, String> {
     let cs = cases(ctx.tier);
     let mut stats = par::sweep_cases(&cs, ctx.threads, |c, st| {
@@ -305,6 +408,13 @@ pub fn run(ctx: &Ctx) -> Result<Run, String> {
         st.count("decodes", d);
         st.findings_from(fs);
     });
+    let seqs = setter_sequences(ctx.tier.pick(3, 4));
+    let st2 = par::sweep_cases(&seqs, ctx.threads, |q, st| {
+        st.case(q, !q.is_empty(), "setter-sequence");
+        st.count("setter_sequences", 1);
+        st.findings_from(eval_setters(q));
+    });
+    stats.merge(st2);
     // credential ids longer than 65535 bytes are refused at construction
     for l in [65536usize, 70000] {
         let (x, y) = xy();
@@ -322,7 +432,7 @@ pub fn run(ctx: &Ctx) -> Result<Run, String> {
     }
     let mut run = Run::from_stats(
         "exploration",
-        "full product RP id {'', ascii, Unicode} x counter {None,0,1,2^31,2^32-1} x all 16 subsets of {UP,UV,BE,BS} (through set_flags and by assigning the public field) x attested data {absent, AAGUID 0/pattern x id length 0,1,16,64,255,256,1023,65535} x extensions {none, hmac-secret true, hmac-secret-mc bytes, assertion hmac-secret}; each encoding is parsed by an independent byte-level parser, round-tripped, every strict prefix decoded (must be rejected) and every position replaced by 16 boundary values (all 256 for the flags byte and for a representative subset of encodings); thorough adds all two-byte corruptions of the two shortest encodings. Every case is a distinct encoding",
+        "full product RP id {'', ascii, Unicode} x counter {None,0,1,2^31,2^32-1} x all 16 subsets of {UP,UV,BE,BS} (through set_flags and by assigning the public field) x attested data {absent, AAGUID 0/pattern x id length 0,1,16,64,255,256,1023,65535} x extensions {none, hmac-secret true, hmac-secret-mc bytes, assertion hmac-secret}; each encoding is parsed by an independent byte-level parser, round-tripped, every strict prefix decoded (must be rejected) and every position replaced by 16 boundary values (all 256 for the flags byte and for a representative subset of encodings); thorough adds all two-byte corruptions of the two shortest encodings. plus every sequence of up to 3 (4 thorough) setter calls out of 11 (flags, attested data, make/assert extension outputs incl. None and empty) after the constructor: AT/ED set exactly when the section is present, own encoding decodes to an equal value. Every case is a distinct encoding",
         true,
         stats,
     );
@@ -339,6 +449,10 @@ pub fn replay(_ctx: &Ctx, case: &Value) -> Result<Vec<Finding>, String> {
             Ok(true) => vec![Finding::new("kind=overlong-credential-id-accepted", "accepted", case.clone())],
             Err(p) => vec![Finding::new("kind=panic-in-constructor", p, case.clone())],
         });
+    }
+    if let Some(q) = case.get("setters") {
+        let q: Vec<Setter> = serde_json::from_value(q.clone()).map_err(|e| format!("bad C12 setter sequence: {e}"))?;
+        return Ok(eval_setters(&q));
     }
     let c: Case = serde_json::from_value(case.clone()).map_err(|e| format!("bad C12 case: {e}"))?;
     Ok(eval(&c).0)
